@@ -139,7 +139,7 @@ SUITES = {
             # the pre-commit / ProveCommitSectors3 path (sectors live 2953 epochs): one / two allocations
             dict(module="MC_Claims", cfg=tiered("MC_Claims_pcq.cfg", "MC_Claims_pc.cfg"),
                  timeout=tiered(900, 3600), workers=4)],
-        sim=dict(module="MC_Claims", cfg="Sim_Claims.cfg", num=tiered(12, 36), depth=30),
+        sim=dict(module="MC_Claims", cfg="Sim_Claims.cfg", num=tiered(12, 30), depth=30),
         tour_cap=tiered(500, 5000),
         driver="claims",
         driver_args=lambda tier: ["--random", 40 if tier == "quick" else 1500, "--len", 80],
